@@ -44,6 +44,8 @@ type Wire struct {
 	IL       *protocol.InterceptingListener
 	Addr     string
 	Accepted []*acceptRes
+	Dialed   []string // "network address" of every dial protocol.Dial made through hook H1
+	wrongNet string
 	stopped  bool
 }
 
@@ -65,8 +67,14 @@ func NewWire(r *kernel.Run, srv *World, base *tls.Config, options []nodeenrollme
 		r.HarnessErr("intercepting listener: %v", err)
 	}
 	w.IL = il
-	protocol.SimDial = func(ctx context.Context, addr string) (net.Conn, error) {
-		// the address handed to Dial may be a unix path, host:port or a bare host: all map to the simulated server
+	protocol.SimDial = func(ctx context.Context, network, addr string) (net.Conn, error) {
+		// the address handed to Dial may be a unix path, host:port or a bare host: all map to the simulated server; which
+		// network Dial chose for it is recorded (a path is a unix socket, everything else tcp)
+		w.Dialed = append(w.Dialed, network+" "+addr)
+		if want := map[bool]string{true: "unix", false: "tcp"}[strings.HasPrefix(addr, "/")]; network != want && w.wrongNet == "" {
+			// noted here (a dialer goroutine), reported by the engine goroutine at its next Quiesce
+			w.wrongNet = fmt.Sprintf("Dial chose network %q for address %q (a path beginning with / is a unix socket, anything else tcp)", network, addr)
+		}
 		c, err := w.Net.Dial(w.Addr, r.Sched.Name())
 		if err != nil {
 			return nil, err
@@ -127,7 +135,15 @@ func (w *Wire) StartAcceptor(name string) {
 }
 
 // Quiesce runs the scheduler until nothing is enabled.
-func (w *Wire) Quiesce() int { return w.R.Sched.RunToQuiescence(200000) }
+func (w *Wire) Quiesce() int {
+	n := w.R.Sched.RunToQuiescence(200000)
+	if w.wrongNet != "" {
+		msg := w.wrongNet
+		w.wrongNet = ""
+		w.R.Violate("dial-network", "dialed-wrong-network", "%s", msg)
+	}
+	return n
+}
 
 // Take returns the accept results produced since the last call.
 func (w *Wire) Take() []*acceptRes {
